@@ -362,6 +362,13 @@ Fixpoint expr_typed (T : space) (fuel : nat) (e : expr) (t : id) {struct e} : bo
       match find_variant_ident var vs with
       | Some vr => match v_det vr with
                    | VItem u => typed_list es [u]
+                   | VTuple [x] =>
+                       (* output_variant declares a one-element tuple variant as `V((T,))`: its single field is
+                          the tuple itself, so `E::V(e)` is ill-typed and only `E::V((e,))` is accepted *)
+                       match es with
+                       | [ETuple [y]] => expr_typed T fuel y x
+                       | _ => false
+                       end
                    | VTuple ts => typed_list es ts
                    | _ => false
                    end
@@ -693,6 +700,20 @@ Definition has_flit (e : expr) : bool :=
   | EStruct _ fs | EVarStruct _ _ fs => existsb (fun '(f, _) => match f with FLit _ => true | FId _ => false end) fs
   | _ => false
   end.
+(* E::V(e) where V is declared with a one-element tuple payload (finding C06-F13) *)
+Definition is_tuple1_variant (T : space) (e : expr) : bool :=
+  match e with
+  | EVarTuple ty var [_] =>
+      match find_named T ty with
+      | Some (DEnum _ _ _ vs _ _) =>
+          match find_variant_ident var vs with
+          | Some vr => match v_det vr with VTuple [_] => true | _ => false end
+          | None => false
+          end
+      | _ => false
+      end
+  | _ => false
+  end.
 Definition is_native_parse (e : expr) : bool := match e with EParse (Some _) _ => true | _ => false end.
 Definition is_default_fill (e : expr) : bool := match e with EDefault => true | _ => false end.
 Definition is_empty_ctor (e : expr) : bool :=
@@ -704,12 +725,12 @@ Definition res_eqb_kind (a b : res kind) : bool :=
   | _, _ => false
   end.
 
-(* flags: unit tuple1 intoob nz0 flit native fill emptyctor *)
+(* flags: unit tuple1 intoob nz0 flit native fill emptyctor tuple1var *)
 Definition class_flags (T : space) (fuel : nat) (t : id) (v : json) : string :=
   let unit := match get_det T t with Some DUnit => true | _ => false end in
   let fl := fun p => match output_value T fuel t v with ROk e => expr_any p e | _ => false end in
   String.concat "" (map show_bool [unit; fl is_tuple1; fl is_int_oob; fl is_nz_zero; fl has_flit;
-                                   fl is_native_parse; fl is_default_fill; fl is_empty_ctor]).
+                                   fl is_native_parse; fl is_default_fill; fl is_empty_ctor; fl (is_tuple1_variant T)]).
 
 (* one line per probe for the correspondence check:
    validate | output | typed | eval | approx *)
